@@ -17,7 +17,7 @@
 (*   key.Save: os.Create / fs.CreateSecureFile (truncates)  CreateTruncate  *)
 (*   key.Save: toml Encode, part of the bytes written       WriteSome       *)
 (*   key.Save: toml Encode complete                         Write           *)
-(*   fileStore.Reset: Delete(shareFile); Delete(groupFile)  DeleteShare, DeleteGroup *)
+(*   fileStore.Reset (leaveNetwork; UNREACHABLE in this tree, in no run)    DeleteShare, DeleteGroup *)
 (*                                                                         *)
 (* dkg.Process.executeAndFinishDKG: SaveFinished, THEN the result is sent  *)
 (* on the fan-out, THEN BeaconProcess.onDKGCompleted -> storeDKGOutput:    *)
@@ -38,7 +38,8 @@ CONSTANTS Scripts,   \* set of high-level runs; a run is a sequence of <<do, arg
                      \*   <<"dkg", e>>      DKG of epoch e completes with this node in the new group
                      \*   <<"beacons", n>>  n more rounds are produced, stored and served
                      \*   <<"left", e>>     DKG of epoch e in which this node is a leaver (state Left)
-                     \*   <<"leavecb", e>>  BeaconProcess.leaveNetwork runs (fileStore.Reset)
+                     \*   <<"leavecb", e>>  BeaconProcess.leaveNetwork runs (fileStore.Reset).  UNREACHABLE IN
+                     \*                     THIS TREE (see below): no script of any config contains it
           Variant    \* "code": what the tree does.  "fixed": proposed repair (files replaced
                      \* atomically by temp file + rename, restart reconciles the key folder with
                      \* the completed record of dkg.db, which contains group and share)
@@ -96,6 +97,14 @@ ExpandFrom(s, i, head, started) ==
             [] do = "beacons" -> BeaconSteps(head + 1, arg, i) \o ExpandFrom(s, i + 1, head + arg, started)
             [] do = "left" -> << St("SaveCurrentTx", "Proposed", arg, i), St("SaveCurrentTx", "Left", arg, i) >>
                               \o ExpandFrom(s, i + 1, head, started)
+            \* UNREACHABLE IN THIS TREE, kept for documentation only, enabled by no config.
+            \* onDKGCompleted calls leaveNetwork only for a completed result whose new group
+            \* lacks this node.  The only producer of such results is this node's own
+            \* dkg.Process.executeAndFinishDKG, and it emits one only after DBState.Complete,
+            \* which is invalid from the state Left a leaver is in (a leader that leaves goes
+            \* to Left in StartExecuting as well), with a group built from the QUAL of its own
+            \* kyber result, which exists only for members of the new group and always
+            \* contains the node itself; Migrate writes dkg.db without a result on the channel.
             [] do = "leavecb" -> << St("DeleteShare", "share", 0, i), St("DeleteGroup", "group", 0, i) >>
                                  \o ExpandFrom(s, i + 1, head, started)
             [] OTHER -> ExpandFrom(s, i + 1, head, started)
@@ -240,7 +249,7 @@ TypeOK == /\ pc \in 1..(Len(steps) + 1)
 \* parts of the statement that the design keeps at every crash point
 Inv_ChainIntact == mode = "up" => Mon_ChainIntact(rec, served)
 Inv_FinishedWhole == mode = "up" => Mon_FinishedWhole(rec)
-\* the whole statement; the design as coded does NOT keep it (F10/F16): TLC reports a model
+\* the whole statement; the design as coded does NOT keep it (F10): TLC reports a model
 \* counterexample which becomes a verdict only through the replay on the real code
 Inv_C13 == mode = "up" => Mon_C13(rec, served)
 \* what remains true for the code as it is: outside the windows of a DKG completion / leave
@@ -250,11 +259,8 @@ Inv_QuiescentConsistent ==
 
 \* the runs
 ScriptStd == << <<"dkg", 1>>, <<"beacons", 2>>, <<"dkg", 2>>, <<"beacons", 5>>, <<"left", 3>>,
-                <<"beacons", 1>>, <<"leavecb", 3>>, <<"beacons", 1>> >>
-ScriptNoCb == << <<"dkg", 1>>, <<"beacons", 2>>, <<"dkg", 2>>, <<"beacons", 5>>, <<"left", 3>>,
-                 <<"beacons", 1>> >>
+                <<"beacons", 2>> >>
 ScriptsStd == {ScriptStd}
-ScriptsNoCb == {ScriptNoCb}
 
 \* a family of runs: first DKG, then any sequence of up to 3 further operations
 FamOps(e) == { <<"beacons", 1>>, <<"beacons", 2>>, <<"dkg", e>>, <<"left", e>> }
@@ -262,7 +268,5 @@ NextEpoch(s) == 1 + Cardinality({i \in 1..Len(s) : s[i][1] \in {"dkg", "left"}})
 RECURSIVE FamFrom(_, _)
 FamFrom(s, n) == IF n = 0 THEN {s}
                  ELSE {s} \cup UNION { FamFrom(Append(s, o), n - 1) : o \in FamOps(NextEpoch(s)) }
-FamBase == FamFrom(<< <<"dkg", 1>>, <<"beacons", 1>> >>, 3)
-ScriptsFamily == FamBase \cup { Append(s, <<"leavecb", NextEpoch(s)>>) : s \in FamBase }
-ScriptsFamilyNoCb == FamBase
+ScriptsFamily == FamFrom(<< <<"dkg", 1>>, <<"beacons", 1>> >>, 3)
 =============================================================================
